@@ -123,7 +123,7 @@ def keep_separate(v):
 
 def get_ctx(kind):
     import mpmath
-    return {'mp': mpmath.mp, 'iv': mpmath.iv}[kind]
+    return {'mp': mpmath.mp, 'iv': mpmath.iv, 'fp': mpmath.fp}[kind]
 
 
 def entry_callable(ctx, name):
@@ -145,16 +145,30 @@ def restore(p):
     D0 = ob.int('D0', 1, PMAX)
     ob.assume.append(PD(P0.t) == D0.t)          # state invariant established by both setters (lemma_setters)
     heap = {}
-    if kind == 'mp':
-        heap[(id(ctx), '_prec')] = (ctx, P0)
-        heap[(id(ctx), '_dps')] = (ctx, D0)
-        heap[(id(ctx._prec_rounding), ('item', 0))] = (ctx._prec_rounding, P0)
-        slots = [((id(ctx), '_prec'), P0, '_prec'), ((id(ctx), '_dps'), D0, '_dps'), ((id(ctx._prec_rounding), ('item', 0)), P0, '_prec_rounding[0]')]
+    if kind in ('mp', 'fp'):
+        # fp has no precision state of its own (its setters are no-ops); what an fp entry point may disturb is the global mp
+        # context it delegates to (ctx._mp), so for fp the watched slots are mp's
+        sc = get_ctx('mp')
+        heap[(id(sc), '_prec')] = (sc, P0)
+        heap[(id(sc), '_dps')] = (sc, D0)
+        heap[(id(sc._prec_rounding), ('item', 0))] = (sc._prec_rounding, P0)
+        slots = [((id(sc), '_prec'), P0, '_prec'), ((id(sc), '_dps'), D0, '_dps'), ((id(sc._prec_rounding), ('item', 0)), P0, '_prec_rounding[0]')]
     else:
         heap[(id(ctx._prec), ('item', 0))] = (ctx._prec, P0)
         heap[(id(ctx), '_dps')] = (ctx, D0)
         slots = [((id(ctx._prec), ('item', 0)), P0, '_prec[0]'), ((id(ctx), '_dps'), D0, '_dps')]
-    fn = entry_callable(ctx, name)
+    if p.get('writer'):
+        # a precision-writing helper that is not a public entry point (module-level function or private method taking the
+        # context as its first parameter): entered directly, so that the induction 'every function that writes the precision
+        # restores it; every other function preserves it if its callees do' has no gap
+        import importlib
+        modname, qn = p['writer'].split(':')
+        obj = importlib.import_module(modname)
+        for part in qn.split('.'):
+            obj = getattr(obj, part)
+        fn = types.MethodType(obj, ctx)
+    else:
+        fn = entry_callable(ctx, name)
     mode = p.get('mode', 'call')
     # the generic wrapper f_wrapped (and the two harness drivers) are shells: their direct callee is the real entry point
     INLINE_DEPTH1[0] = getattr(getattr(fn, '__func__', fn), '__name__', '') == 'f_wrapped' or mode != 'call'
@@ -303,6 +317,57 @@ def _exec_with_fault(code, glob, k):
     finally:
         sys.settrace(None)
     return count[0]
+
+
+def writers():
+    """(module, qualname, mentions _mp) of every function in the loaded mpmath modules whose own source writes the precision
+    state, takes the context as first parameter `ctx`, and is not itself a public entry point of mp"""
+    import mpmath
+    pub = set()
+    for cn in ('mp', 'iv', 'fp'):
+        c = getattr(mpmath, cn)
+        for n in dir(c):
+            if n.startswith('_'):
+                continue
+            try:
+                v = getattr(c, n)
+            except Exception:
+                continue
+            f = getattr(v, '__func__', v)
+            if isinstance(f, types.FunctionType):
+                pub.add(f.__code__)
+                for cell in (f.__closure__ or ()):
+                    w = getattr(cell, 'cell_contents', None)
+                    if isinstance(w, types.FunctionType):
+                        pub.add(w.__code__)
+    skip = {'__init__', 'default', 'clone', '_set_prec', '_set_dps', '__call__', '__enter__', '__exit__'}
+    out, seen = [], set()
+    for mn, mod in sorted(sys.modules.items()):
+        if not mn.startswith('mpmath') or mod is None or '.tests' in mn:
+            continue
+        for name, obj in list(vars(mod).items()):
+            cands = []
+            if isinstance(obj, types.FunctionType):
+                cands.append((name, obj))
+            elif isinstance(obj, type) and (obj.__module__ or '').startswith('mpmath'):
+                for k, v in vars(obj).items():
+                    if isinstance(v, types.FunctionType):
+                        cands.append((obj.__name__ + '.' + k, v))
+            for qn, f in cands:
+                if f.__code__ in seen or f.__module__ != mn or f.__code__ in pub or qn.split('.')[-1] in skip:
+                    continue
+                seen.add(f.__code__)
+                if not touches(f):
+                    continue
+                argnames = f.__code__.co_varnames[:f.__code__.co_argcount]
+                if not argnames or argnames[0] != 'ctx':
+                    continue
+                try:
+                    src = inspect.getsource(f)
+                except Exception:
+                    src = ''
+                out.append((mn, qn, '_mp' in src))
+    return out
 
 
 def restore_concrete(p, m):
@@ -579,16 +644,30 @@ def setters(p):
 
 
 def setters_concrete(p, m):
+    """replay from the model's entry precision; because the conversion functions are uninterpreted in the query, the model's
+    dps need not be the real prec_to_dps(P0): the pattern 'new value equals the current one' is therefore replayed as such
+    (n = the real current value), and entry precisions that are not the image of a dps are tried as well"""
     from mpmath.libmp import prec_to_dps, dps_to_prec
     ctx = get_ctx(p['ctx'])
-    n = m.get('n', 1)
+    which = p['which']
     old = ctx.prec
+    entries = [q for q in (m.get('P0'), 54, 101, 53) if q and 1 <= q <= 100000]
     try:
-        setattr(ctx, p['which'], n)
-        want = (n, prec_to_dps(n)) if p['which'] == 'prec' else (dps_to_prec(n), n)
-        opprec = ctx.mpf._ctxdata[2][0]
-        got = (ctx.prec, ctx.dps)
-        ok = got == want and opprec == want[0]
-        return ok, '%s.%s = %d gives (prec, dps) = %r, precision used by operators %r; documented: %r' % (p['ctx'], p['which'], n, got, opprec, want)
+        for P0 in entries:
+            ctx.prec = P0
+            cur = ctx.dps if which == 'dps' else ctx.prec
+            ns = [m.get('n', 1), cur, cur + 1]
+            for n in ns:
+                if not (1 <= n <= 100000):
+                    continue
+                ctx.prec = P0
+                setattr(ctx, which, n)
+                want = (n, prec_to_dps(n)) if which == 'prec' else (dps_to_prec(n), n)
+                opprec = ctx.mpf._ctxdata[2][0]
+                got = (ctx.prec, ctx.dps)
+                if not (got == want and opprec == want[0]):
+                    return False, 'entry precision %d: %s.%s = %d gives (prec, dps) = %r, precision used by operators %r; documented: %r' % (
+                        P0, p['ctx'], which, n, got, opprec, want)
+        return True, ''
     finally:
         ctx.prec = old
